@@ -203,6 +203,12 @@ def range_guard(P, rep, rule="G4"):
             lower = upper = False
             strict = []
             for c, idx in conds:
+                # `if (!X) return incoming;` (guard clause): being past it means X held
+                c0 = sc(c)
+                while c0 is not None and c0.get("k") == "UnaryOperator" and c0.get("op") == "!":
+                    c0 = sc(c0["c"][0])
+                    idx = 1 - idx
+                c = c0
                 for cmp_ in F.walk(c):
                     if cmp_.get("k") != "BinaryOperator" or cmp_.get("op") not in ("<=", ">=", "<", ">"):
                         continue
